@@ -159,6 +159,12 @@ def _one(item):
     try:
         # class-style cases also declare their bundles as class bodies with in-line roles, instead of through a RoleSet
         b = build_bundle(h, tree, [0], inline_roles=("unnamed" if style == "unnamed" else style == "class"))
+        if style == "shared":
+            # every leaf and sub-bundle instance of the definition is *also* stored in another Bundle definition, under
+            # another name (one object shared by two definitions): the members of `b` are still the names `b` holds them under
+            decoy = h.Bundle(name="Decoy")
+            for k_, (mname, mobj) in enumerate(list(b.namespace.items())):
+                setattr(decoy, f"zz{k_}", mobj)
         kw = dict(port=is_port)
         if inst_role:
             # the bundle's own Role object, or (procedural style) an equal one made elsewhere: roles compare by name
@@ -244,7 +250,7 @@ def run(ctx):
             if k % stride != (ctx.seed % stride):
                 continue
             for j, (p, f, r) in enumerate(tops_sel):
-                items.append((t, p, f, r, ("class", "proc", "unnamed", "proc", "class", "unnamed")[(k + j) % 6] if any(kk not in ("in", "out", "inout", "port", "plain") for kk in _kinds(t)) else ("class" if (k + j) % 2 else "proc")))
+                items.append((t, p, f, r, ("class", "proc", "unnamed", "shared", "class", "unnamed")[(k + j) % 6] if any(kk not in ("in", "out", "inout", "port", "plain") for kk in _kinds(t)) else ("class", "proc", "shared", "proc")[(k + j) % 4]))
         fam_sizes[fam] = len(items) - n0
 
     add("flat", list(flat_trees()), tops)
